@@ -105,49 +105,50 @@ type Hang struct {
 
 // Trace is everything observed during one run.
 type Trace struct {
-	Chunks          []Chunk
-	Events          []Event
-	Gets            []GetRec
-	Writes          []WriteRec
-	Adds            []AddRec
-	Probes          []ProbeRec
-	Shutdowns       map[[2]int]int // (bar, decor) -> OnShutdown calls
-	ShutdownsAtWait map[[2]int]int
-	EwmaSamples     map[[2]int][]EwmaSample
-	Notified        [][]int // bar indices of every value received from the notifier
-	Debug           string
-	WaitSeq         int64 // event seq when Wait returned (0 = never)
-	ChunksAtWait    int   // number of chunks when Wait returned
-	LateChunks      int   // chunks that arrived after Wait returned (after settling)
-	Final           []GetRec
-	Hang            *Hang
-	Inconclusive    string
-	Cycles          int64
-	CancelSeq       int64
-	CyclesAtCancel  int64
-	PtyStream       []byte
-	DebugAtWait     string    // what the debug output held at the moment Wait returned
-	Polls           []PollRec // concurrent getter polls ("get" steps with Flag)
-	Added           []bool
-	StepSeq         []int64 // event seq at the end of each top-level step
-	OutputErrs      int
-	FillCalls       map[int]int
-	Calls           []CallRec
-	TagCalls        map[int]int // renders per bar (the row tag decorator is called once per render)
-	Leaks           []G
-	LeakUndecided   bool
-	Detached        int64
-	BarWaitStuck    []int // bars whose Bar.Wait did not return after Progress.Wait had
-	LateFrom        int   // index into Adds/Writes/Gets bookkeeping: see LateAdds etc.
-	LateAdds        []AddRec
-	LateWrites      []WriteRec
-	FinalLate       []GetRec    // getters once more after the late calls
-	LateProxies     int         // ProxyReader/ProxyWriter calls made after Wait returned
-	LateProxyNonNil int         // ... that returned a non-nil proxy
-	LateChunksAfter int         // output writes caused by late calls
-	UserWGDoneSeq   int64       // event seq at which the user wait group was released (WithWaitGroup)
-	IDs             map[int]int // Bar.ID() after Wait
-	AddOrder        []int       // bars in the order their Add returned successfully
+	Chunks             []Chunk
+	Events             []Event
+	Gets               []GetRec
+	Writes             []WriteRec
+	Adds               []AddRec
+	Probes             []ProbeRec
+	Shutdowns          map[[2]int]int // (bar, decor) -> OnShutdown calls
+	ShutdownsAtWait    map[[2]int]int
+	EwmaSamples        map[[2]int][]EwmaSample
+	Notified           [][]int // bar indices of every value received from the notifier
+	Debug              string
+	WaitSeq            int64 // event seq when Wait returned (0 = never)
+	ChunksAtWait       int   // number of chunks when Wait returned
+	LateChunks         int   // chunks that arrived after Wait returned (after settling)
+	Final              []GetRec
+	Hang               *Hang
+	Inconclusive       string
+	Cycles             int64
+	CancelSeq          int64
+	CyclesAtCancel     int64
+	PtyStream          []byte
+	DebugAtWait        string    // what the debug output held at the moment Wait returned
+	RunningAfterCancel []int     // bars whose IsRunning() was still true right after the cancel / Shutdown call returned
+	Polls              []PollRec // concurrent getter polls ("get" steps with Flag)
+	Added              []bool
+	StepSeq            []int64 // event seq at the end of each top-level step
+	OutputErrs         int
+	FillCalls          map[int]int
+	Calls              []CallRec
+	TagCalls           map[int]int // renders per bar (the row tag decorator is called once per render)
+	Leaks              []G
+	LeakUndecided      bool
+	Detached           int64
+	BarWaitStuck       []int // bars whose Bar.Wait did not return after Progress.Wait had
+	LateFrom           int   // index into Adds/Writes/Gets bookkeeping: see LateAdds etc.
+	LateAdds           []AddRec
+	LateWrites         []WriteRec
+	FinalLate          []GetRec    // getters once more after the late calls
+	LateProxies        int         // ProxyReader/ProxyWriter calls made after Wait returned
+	LateProxyNonNil    int         // ... that returned a non-nil proxy
+	LateChunksAfter    int         // output writes caused by late calls
+	UserWGDoneSeq      int64       // event seq at which the user wait group was released (WithWaitGroup)
+	IDs                map[int]int // Bar.ID() after Wait
+	AddOrder           []int       // bars in the order their Add returned successfully
 }
 
 // StepSeqLast is the event sequence number at the end of the last program step
@@ -175,6 +176,7 @@ type Options struct {
 var runMu sync.Mutex
 
 type runner struct {
+	wcStyles         sync.Map                   // (W, C) -> []decor.WC shared by all via_any decorators with these settings
 	midRender        atomic.Pointer[func(bool)] // armed by a tick step that carries a priority change
 	sc               *Scenario
 	opt              Options
@@ -503,6 +505,12 @@ func (d *innerDecor) Decor(s decor.Statistics) (string, int) {
 }
 
 func (d *innerDecor) nextText() string {
+	if d.spec.PeerBar > 0 {
+		// a "summary" decorator: looks at another (earlier) bar of the container while it is drawn
+		if pb := d.r.bar(d.spec.PeerBar - 1); pb != nil && d.spec.PeerBar-1 != d.bar {
+			_ = pb.Current()
+		}
+	}
 	k := d.calls.Add(1) - 1
 	txt := ""
 	if n := len(d.spec.Texts); n > 0 {
@@ -580,6 +588,11 @@ func (p probe) Decor(s decor.Statistics) (string, int) {
 
 func colour(s string) string { return "\x1b[36m" + s + "\x1b[0m" }
 
+func (r *runner) sharedWC(w, c int) []decor.WC {
+	v, _ := r.wcStyles.LoadOrStore([2]int{w, c}, []decor.WC{{W: 1}, {W: w, C: c}})
+	return v.([]decor.WC)
+}
+
 func (r *runner) buildDecor(bar, di int, spec *DecorSpec) decor.Decorator {
 	wc := decor.WC{W: spec.W, C: spec.C}
 	in := &innerDecor{WC: wc.Init(), r: r, bar: bar, di: di, spec: spec}
@@ -616,8 +629,11 @@ func (r *runner) buildDecor(bar, di int, spec *DecorSpec) decor.Decorator {
 		d = ewmaDecor{in}
 	case spec.ViaAny:
 		// the library's own constructor, called the way helpers do: a default
-		// configuration first, the caller's last (the last one given counts)
-		d = decor.Any(func(decor.Statistics) string { return in.nextText() }, decor.WC{W: 1}, wc)
+		// configuration first, the caller's last (the last one given counts). The
+		// configuration slice is shared by every decorator of the run that has the
+		// same settings (a package-level "style" in a real program): read-only for
+		// everybody, the library included
+		d = decor.Any(func(decor.Statistics) string { return in.nextText() }, r.sharedWC(spec.W, spec.C)...)
 	default:
 		d = in
 	}
@@ -667,6 +683,9 @@ func (r *runner) buildBarOptions(idx int) (mpb.BarFiller, []mpb.BarOption) {
 	case "spinnerv":
 		// custom frames of different display widths
 		base = mpb.SpinnerStyle(".", "..", "世界", "o", "-->", "").Build()
+	case "bartip":
+		// a bar whose tip is three cells wide
+		base = mpb.BarStyle().Tip("==>").Build()
 	case "nop":
 		base = mpb.NopStyle().Build()
 	case "tag":
@@ -1004,7 +1023,11 @@ func (r *runner) scenario() {
 		opts = append(opts, mpb.WithOutput(r.rec))
 	}
 	r.debug.slowUs = cfg.DebugSlowUs
-	opts = append(opts, mpb.WithDebugOutput(&r.debug))
+	if cfg.DebugNil {
+		opts = append(opts, mpb.WithDebugOutput(nil)) // "no debug output wanted"
+	} else {
+		opts = append(opts, mpb.WithDebugOutput(&r.debug))
+	}
 	switch cfg.Refresh {
 	case "manual":
 		r.manual = make(chan interface{})
@@ -1420,6 +1443,18 @@ func (r *runner) tickWithPriorityChange(st *Step, b *mpb.Bar) {
 	}
 }
 
+// noteRunningAfterCancel: once the cancel call / Shutdown has returned every
+// bar's context is done, so IsRunning must say false at once.
+func (r *runner) noteRunningAfterCancel() {
+	for i := range r.sc.Bars {
+		if b := r.bar(i); b != nil && b.IsRunning() {
+			r.mu.Lock()
+			r.tr.RunningAfterCancel = append(r.tr.RunningAfterCancel, i)
+			r.mu.Unlock()
+		}
+	}
+}
+
 func (r *runner) logCall(c CallRec) {
 	r.mu.Lock()
 	if len(r.tr.Calls) < 100000 {
@@ -1481,6 +1516,18 @@ func (r *runner) runStepC(st *Step, idx, depth, client int) {
 			r.tr.AddOrder = append(r.tr.AddOrder, st.Bar)
 		}
 		r.mu.Unlock()
+	case "add2":
+		// two client goroutines add a bar each at the same time
+		var wg sync.WaitGroup
+		for _, idx2 := range []int{st.Bar, int(st.N)} {
+			idx2 := idx2
+			wg.Add(1)
+			go func() {
+				defer wg.Done()
+				r.runStepC(&Step{Op: "add", Bar: idx2}, idx, depth+1, client)
+			}()
+		}
+		wg.Wait()
 	case "incr":
 		if b != nil {
 			inv := r.seq.Add(1)
@@ -1578,6 +1625,7 @@ func (r *runner) runStepC(st *Step, idx, depth, client int) {
 		r.mu.Unlock()
 		r.cancelled.Store(true)
 		r.cancel()
+		r.noteRunningAfterCancel()
 	case "shutdown":
 		s := r.event("client.cancel", 1, nil)
 		r.mu.Lock()
@@ -1588,6 +1636,7 @@ func (r *runner) runStepC(st *Step, idx, depth, client int) {
 		r.mu.Unlock()
 		r.cancelled.Store(true)
 		r.p.Shutdown()
+		r.noteRunningAfterCancel()
 	case "release":
 		if r.delay != nil && !r.delayReleased {
 			r.delayReleased = true
